@@ -1546,6 +1546,16 @@ package engine
 //@   loop 1 invariant[the-position-converted-is-never-negative] 0 <= local(i, int)
 //@   loop 1 invariant[converting-an-element-leaves-the-registered-arguments-alone] p.args == old(p.args)
 //@   ensures[the-arguments-registered-so-far-are-left-alone] p.args == old(p.args)
+//@   bind lst = List#1
+//@   loop 1 invariant 0 <= local(i, int) && local(i, int) <= reflect.Value.Len(o) && len(local(es, []Term)) == reflect.Value.Len(o)
+//@   loop 1 maintains[the-term-of-an-element-takes-the-slot-of-that-element] called(et) && local(es, []Term)[local(i, int)] == et
+//@   loop 1 maintains[one-element-after-the-other] local(i, int) < reflect.Value.Len(o)
+//@   at-call List requires[the-list-of-the-converted-elements-in-order] a0 == local(es, []Term)
+//@   ensures[a-term-on-success] err == nil ==> result != nil
+//@   ensures[an-element-that-is-not-data-fails-the-whole-value] called(eerr) && eerr != nil ==> err == eerr && result == nil
+//@   ensures[an-array-or-a-slice-is-the-list-of-its-elements] (kind == 17 || kind == 23) && err == nil ==> called(lst) && result == lst
+//@   ensures[unsigned-integers-are-refused-never-wrapped] kind == 7 || kind == 8 || kind == 9 || kind == 10 || kind == 11 || kind == 12 ==> err != nil && result == nil
+//@   ensures[an-error-comes-without-a-term] err != nil ==> result == nil
 
 //@ func (*Parser).term0
 //@   property C15
@@ -1568,6 +1578,10 @@ package engine
 //@   at-call (*Parser).termOf requires[converted-under-this-parser-s-flag] a0 == p
 //@   loop 1 maintains[no-argument-is-passed-over-after-a-failed-conversion] called(aerr) && aerr == nil
 //@   loop 1 invariant[one-place-per-argument-and-the-position-filled-is-one-of-them] -1 <= $i && $i < len(args) && len(p.args) == len(args)
+//@   at-call (*Parser).termOf requires[each-argument-is-converted-at-its-own-position] 0 <= local(i, int) && local(i, int) < len(args) && a1 == reflect.ValueOf(args[local(i, int)])
+//@   loop 1 maintains[the-term-of-an-argument-takes-the-slot-of-that-argument] called(at) && local(i, int) < len(p.args) && p.args[local(i, int)] == at
+//@   ensures[an-argument-that-is-not-data-is-an-error] called(aerr) && aerr != nil ==> result == aerr
+//@   ensures[otherwise-one-term-per-argument-is-queued] result == nil ==> len(p.args) == len(args)
 
 //@ func (*Parser).term0Atom
 //@   property C15
@@ -1582,6 +1596,8 @@ package engine
 //@   requires p != nil
 //@   nosafety
 //@   ensures[arguments-left-over-are-an-error] result1 == nil ==> len(p.args) == 0
+//@   ensures[an-error-comes-without-a-term] result1 != nil ==> result0 == nil
+//@   at-call (*Parser).term requires[the-whole-clause-is-read-by-this-parser] a0 == p && a1 == 1201
 
 //@ ---------------------------------------------------------------- relational built-ins, deterministic modes (C16)
 
@@ -2214,13 +2230,19 @@ package engine
 //@ -- the per-term loop of a load (parsing, expansion, directives): assumed not to touch the procedure table
 //@ -- ("side-effect-free directives" of the property statement) and to keep the text's invariants
 //@ func (*VM).compile
-//@   property C20
+//@   property C20 C15
 //@   assumed-post
 //@   checks only at-call at-call-missing maintains nok
 //@   nosafety
 //@   modifies heap
 //@   loop 1 invariant true
 //@   at-call (*Parser).Term#1 requires[each-clause-is-read-with-its-own-variables] len(local(p, *Parser).Vars) == 0
+//@   bind prs = NewParser#1
+//@   bind serr = (*Parser).SetPlaceholder#1
+//@   at-call NewParser requires[the-text-is-read-under-this-vm-s-flags-and-operators] a0 == vm
+//@   at-call (*Parser).SetPlaceholder requires[the-arguments-stand-for-the-question-marks-of-this-text] called(prs) && a0 == prs && a1 == NewAtom("?") && a2 == args
+//@   at-call (*Parser).Term requires[the-text-is-read-by-the-parser-that-holds-the-arguments] called(prs) && a0 == prs && called(serr) && serr == nil
+//@   nok[a-value-that-is-not-data-fails-the-load] called(serr) && serr != nil ==> result == serr
 //@   bind rt, perr = (*Parser).Term#1
 //@   bind pi1, arg1, pierr = piArg#1
 //@   bind pi2, arg2, pierr2 = piArg#2
@@ -2263,11 +2285,12 @@ package engine
 
 //@ -- named so that its results can be bound in VM.compile; nothing is claimed about it (any result, any effect)
 //@ func (*VM).Compile
-//@   property C13 C20
+//@   property C13 C20 C15
 //@   requires vm != nil
 //@   nosafety
 //@   bind cerr = (*VM).compile#1
 //@   bind ferr = (*text).flush#1
+//@   at-call (*VM).compile#1 requires[the-text-and-the-arguments-are-handed-on-unchanged] a0 == vm && a1 == ctx && a3 == s && a4 == args
 //@   ensures[a-failed-load-defines-nothing] cerr != nil || (called(ferr) && ferr != nil) ==>
 //@       forall q procedureIndicator :: has(vm.procedures, q) == old(has(vm.procedures, q)) && vm.procedures[q] == old(vm.procedures[q])
 //@   ensures[errors-of-the-text-are-reported] cerr != nil ==> result == cerr
